@@ -37,7 +37,10 @@ GROUPS = {
     # `pc` of ONE flat collection (not a DataFrame, not a 2-tuple; `array2=None`): np.unique(return_counts) is `counts` of Model/Stats
     "pc": ("pyrepseq/stats.py", "FormulasPc.lean", [("pc_n", {"n": "vec"}), ("varpc_n", {"n": "vec"}),
                                                      ("pc", {"array": "coll"}, {"real": False, "static": {"array2": None},
-                                                                                "suffix": "_one_sample"})]),
+                                                                                "suffix": "_one_sample"}),
+                                                     # ... and of TWO flat collections: np.intersect1d(return_indices) over the two np.unique
+                                                     # results selects the counts of the shared values
+                                                     ("pc", {"array": "coll", "array2": "coll"}, {"real": False, "suffix": "_two_samples"})]),
     "richness": ("pyrepseq/stats.py", "FormulasRichness.lean", [
         ("chao1", {"counts": "vec"}), ("var_chao1", {"counts": "vec"}),
         ("chao2", {"counts": "vec", "m": "rat"}), ("var_chao2", {"counts": "vec", "m": "rat"}),
@@ -125,6 +128,8 @@ class Fn:
         self.depth = self.opts.get("depth", 0)
         self.tmp = 0
         self.opaque_seen = {}
+        self.unique_of = {}              # counts name -> (values name, collection term) from `values, counts = np.unique(a, return_counts=True)`
+        self.shared = {}                 # index name -> (collection term, shared-values term) from np.intersect1d(..., return_indices=True)
 
     # ---- expressions: return (lean, type); vec values are ("vec", base, body) with body a term in the bound variable x
     def is_identity(self, node, var=None):
@@ -195,6 +200,12 @@ class Fn:
             if t == "vec" and v[2] == "x":
                 return f"{v[1]}.length", "nat"
             raise Untranslatable("shape of this expression")
+        if isinstance(e, ast.Subscript) and isinstance(e.value, ast.Name) and isinstance(e.slice, ast.Name) and e.value.id in self.unique_of \
+                and e.slice.id in self.shared:
+            coll, shared = self.shared[e.slice.id]
+            if self.unique_of[e.value.id][1] != coll:
+                raise Untranslatable("counts of one collection indexed with the positions of another")
+            return ("vec", shared, f"((({coll}).count x : Nat) : Rat)"), "vec"      # the multiplicities of the shared values
         if isinstance(e, ast.Subscript):
             v, t = self.expr(e.value)
             if t == "vec" and v[2] == "x" and isinstance(e.slice, ast.Constant) and isinstance(e.slice.value, int) and e.slice.value >= 0:
@@ -490,7 +501,25 @@ class Fn:
             self.env[vals] = "set"
             self.vecs[cnts] = ("vec", f"((Prs.counts {v}).map fun c : Nat => (c : Rat))", "x")
             self.env.pop(cnts, None)
+            self.unique_of[cnts] = (vals, v)
             return f"{pad}let {vals} := (dedup {v})\n" + self.block(rest, ind)
+        if isinstance(s, ast.Assign) and len(s.targets) == 1 and isinstance(s.targets[0], ast.Tuple) and len(s.targets[0].elts) == 3 \
+                and all(isinstance(x, ast.Name) for x in s.targets[0].elts) and isinstance(s.value, ast.Call) \
+                and dotted(s.value.func) in ("np.intersect1d", "numpy.intersect1d") and len(s.value.args) == 2 \
+                and all(isinstance(a_, ast.Name) for a_ in s.value.args) \
+                and ("return_indices", True) in [(k.arg, getattr(k.value, "value", None)) for k in s.value.keywords] \
+                and all(k.arg in ("return_indices", "assume_unique") for k in s.value.keywords):
+            # `shared, i1, i2 = np.intersect1d(v1, v2, return_indices=True)` over the distinct values of two collections: the shared values
+            # and their positions in v1 / v2 (so that counts1[i1], counts2[i2] are their multiplicities in either collection)
+            by_vals = {vals: coll for _c, (vals, coll) in self.unique_of.items()}
+            n1, n2 = (a_.id for a_ in s.value.args)
+            if n1 not in by_vals or n2 not in by_vals:
+                raise Untranslatable("np.intersect1d of something else than two np.unique results")
+            shared = f"((dedup {by_vals[n1]}).filter fun y => decide (y ∈ (dedup {by_vals[n2]})))"
+            sv, i1, i2 = (x.id for x in s.targets[0].elts)
+            self.shared[i1], self.shared[i2] = (by_vals[n1], shared), (by_vals[n2], shared)
+            self.env[sv] = "set"
+            return f"{pad}let {sv} := {shared}\n" + self.block(rest, ind)
         if isinstance(s, ast.Assign):
             if len(s.targets) != 1 or not isinstance(s.targets[0], ast.Name):
                 raise Untranslatable("assignment target")
@@ -566,6 +595,10 @@ class Fn:
 
     def static_value(self, t):
         """truth value of a condition that only involves parameters fixed at translation time (None: not static)"""
+        if isinstance(t, ast.Compare) and len(t.ops) == 1 and isinstance(t.ops[0], (ast.Is, ast.IsNot)) and isinstance(t.left, ast.Name) \
+                and isinstance(t.comparators[0], ast.Constant) and t.comparators[0].value is None \
+                and (self.env.get(t.left.id) in ("coll", "vec", "rat", "nat", "set") or t.left.id in self.vecs) and t.left.id not in self.static:
+            return isinstance(t.ops[0], ast.IsNot)          # a collection / a number is not None
         names = {n.id for n in ast.walk(t) if isinstance(n, ast.Name)} - {"type", "list", "tuple", "str", "isinstance", "len"}
         if not names or not names <= set(self.static):
             return None
